@@ -1,8 +1,8 @@
 package ir
 
 import (
-	"fmt"
 	"encoding/json"
+	"fmt"
 	"go/ast"
 	"go/types"
 	"os"
